@@ -68,7 +68,8 @@ Example ex_valid_safe : valid_safe init ex_safe_ops.
 Proof. unfold ex_safe_ops, init. repeat step_valid_safe. Qed.
 Example ex_dense_run :
   dense_run [] ex_safe_ops =
-  [[-2; 0; 5; 7]; [7; 0]; [7; 0; 7; 5; 0; -2]; [0; 0; 0; 0; 0; 0]; [0; 0; 0; 0; 0; 0; 4; 0]] /\
+  [[-2; 0; 5; 7]; [7; -2]; [-2; 7; 7; 5; 0; -2]; [0; 0; 0; 0; 0; 0]; [0; 0; 0; 0; 0; 0; 4; 0]] /\
+  dense_run [] (firstn 11 ex_safe_ops) = [[-2; 0; 5; 7]; [7; -2]; [-2; 7; 7; 5; 0; -2]; [0; 14; 0; 0; 2; 0]] /\
   absw (run init ex_safe_ops) = dense_run [] ex_safe_ops.
 Proof. vm_compute. auto. Qed.
 (* an UNSAFE write (through a cell shared with a slice) is outside the refinement theorem: here the
